@@ -23,16 +23,17 @@ import (
 )
 
 type Workload struct {
-	Name      string
-	Count     func(tier string) int
-	SeedIndex func(i int) int // maps case index -> tape seed index (default identity)
-	Gen       func(i int, t *Tape, tier string) any
-	Run       func(c any, keepLog bool) Outcome
-	New       func() any
-	Isolated  bool // each case in its own OS process (resource shapes)
+	Name              string
+	Count             func(tier string) int
+	SeedIndex         func(i int) int // maps case index -> tape seed index (default identity)
+	Gen               func(i int, t *Tape, tier string) any
+	Run               func(c any, keepLog bool) Outcome
+	New               func() any
+	Isolated          bool // each case in its own OS process (resource shapes)
 	NondetIsViolation bool // a determinism mismatch is the violation itself (C10)
-	NoRecheck bool
-	ShrinkEvals int // cap on shrink evaluations (0: default)
+	NoRecheck         bool
+	ShrinkEvals       int                            // cap on shrink evaluations (0: default)
+	Simplify          func(w *Workload, c any) []any // structural simplification candidates (second shrinking pass)
 }
 
 type Property struct {
@@ -81,16 +82,16 @@ func caseTape(seed int64, prop string, w *Workload, i int) *Tape {
 // ---------------------------------------------------------------- worker
 
 type workerStats struct {
-	Evaluations int                       `json:"evaluations"`
-	PerWorkload map[string]int            `json:"per_workload"`
-	Nontrivial  int                       `json:"nontrivial"`
-	Shapes      []uint64                  `json:"shapes"`
-	Steps       int64                     `json:"steps"`
-	Faults      map[string]int            `json:"faults"`
-	Probes      map[string]int            `json:"probes"`
-	Skipped     map[string]int            `json:"skipped"`
-	Rechecked   int                       `json:"rechecked"`
-	Mismatches  []string                  `json:"mismatches"`
+	Evaluations int                          `json:"evaluations"`
+	PerWorkload map[string]int               `json:"per_workload"`
+	Nontrivial  int                          `json:"nontrivial"`
+	Shapes      []uint64                     `json:"shapes"`
+	Steps       int64                        `json:"steps"`
+	Faults      map[string]int               `json:"faults"`
+	Probes      map[string]int               `json:"probes"`
+	Skipped     map[string]int               `json:"skipped"`
+	Rechecked   int                          `json:"rechecked"`
+	Mismatches  []string                     `json:"mismatches"`
 	Samples     map[string][]json.RawMessage `json:"samples"`
 }
 
@@ -453,8 +454,32 @@ func reportViolation(prop *Property, tier string, seed int64, v violation) (stri
 		c = w.Gen(v.Index, ReplayTape(tape), tier)
 		o = runCaseMaybeIsolated(prop, w, c, isolated)
 	}
+	// second pass: structural simplification of the materialised case
+	structEvals, structSteps := 0, 0
+	if w.Simplify != nil && v.Class != "nondeterministic" {
+		budget := maxEvals / 2
+		for round := 0; round < 200 && structEvals < budget; round++ {
+			improved := false
+			for _, cand := range w.Simplify(w, c) {
+				if structEvals >= budget {
+					break
+				}
+				structEvals++
+				oo := runCaseMaybeIsolated(prop, w, cand, isolated)
+				if oo.Class == v.Class {
+					c, o = cand, oo
+					improved = true
+					structSteps++
+					break
+				}
+			}
+			if !improved {
+				break
+			}
+		}
+	}
 	cj, _ := json.MarshalIndent(c, " ", " ")
-	rf := replayFile{Property: prop.ID, Workload: w.Name, Tier: tier, Seed: seed, Index: v.Index, Class: v.Class, Msg: o.Msg, Tape: tape, Case: cj, LogHash: o.LogHash, Log: o.Log, Shrink: map[string]int{"evaluations": evals, "tape_len_before": len(t.Rec), "tape_len_after": len(tape)}}
+	rf := replayFile{Property: prop.ID, Workload: w.Name, Tier: tier, Seed: seed, Index: v.Index, Class: v.Class, Msg: o.Msg, Tape: tape, Case: cj, LogHash: o.LogHash, Log: o.Log, Shrink: map[string]int{"evaluations": evals, "tape_len_before": len(t.Rec), "tape_len_after": len(tape), "structural_evaluations": structEvals, "structural_steps": structSteps}}
 	if rf.Msg == "" {
 		rf.Msg = v.Msg
 	}
@@ -766,22 +791,22 @@ func writeEvidence(prop *Property, tier string, seed int64, res *checkResult, wa
 		perHour = float64(res.stats.Evaluations) / wall * 3600
 	}
 	cov := map[string]any{
-		"evaluations":          res.stats.Evaluations,
-		"distinct_nontrivial":  len(res.shapes),
-		"rule":                 prop.Rule,
-		"samples":              samples,
-		"nontrivial_runs":      res.stats.Nontrivial,
-		"per_workload":         res.stats.PerWorkload,
-		"simulated_runs_per_hour": int64(perHour),
-		"seeds":                []int64{seed},
-		"logical_steps_covered": res.stats.Steps,
-		"faults_fired":         res.stats.Faults,
-		"probes":               res.stats.Probes,
-		"verdicts_not_taken":   res.stats.Skipped,
-		"determinism_recheck":  map[string]any{"reexecuted": res.stats.Rechecked, "mismatches": len(res.stats.Mismatches)},
-		"known_findings_printed": append([]string{}, known...),
-		"harness_trouble":      append([]string{}, trouble...),
-		"components":           prop.Components,
+		"evaluations":                res.stats.Evaluations,
+		"distinct_nontrivial":        len(res.shapes),
+		"rule":                       prop.Rule,
+		"samples":                    samples,
+		"nontrivial_runs":            res.stats.Nontrivial,
+		"per_workload":               res.stats.PerWorkload,
+		"simulated_runs_per_hour":    int64(perHour),
+		"seeds":                      []int64{seed},
+		"logical_steps_covered":      res.stats.Steps,
+		"faults_fired":               res.stats.Faults,
+		"probes":                     res.stats.Probes,
+		"verdicts_not_taken":         res.stats.Skipped,
+		"determinism_recheck":        map[string]any{"reexecuted": res.stats.Rechecked, "mismatches": len(res.stats.Mismatches)},
+		"known_findings_printed":     append([]string{}, known...),
+		"harness_trouble":            append([]string{}, trouble...),
+		"components":                 prop.Components,
 		"distinct_measure_capped_at": shapeCap * 16,
 	}
 	ev := map[string]any{
